@@ -440,6 +440,6 @@ def _dump_helper_occ(f, data, spin=None):
         raise DumpError("A spin must be specified", f)
 
     for j in range(0, norb, 5):
-        occs = " ".join([f"  {o: .7f}" for o in occ[j : j + 5]])
+        occs = " ".join([f"  {o: .12f}" for o in occ[j : j + 5]])
         f.write(occs + "\n")
     f.write(" $END\n")
